@@ -52,7 +52,7 @@ def get_inherited(t: Type) -> Type:
         # Get us back to typing if this is a common interface.
         # This is not needed in python 3.11 and forward, where
         # collections.abc.X can are all be parameterized.
-        if r_base.__name__ in typing.__dict__:
+        if r_base.__module__ == "collections.abc" and r_base.__name__ in typing.__dict__:
             r_base = typing.__dict__[r_base.__name__]
 
         # Re-parameterize the type with the information e have from this parameterization.
